@@ -436,6 +436,16 @@ class BaseTempoBackend:
                                  right=True,
                                  name="Thee Time Evolving MPO")
 
+    def copy_networks(self) -> Tuple[na.NodeArray, na.NodeArray]:
+        """Return copies of the current MPS and MPO. """
+        return self._mps.copy(), self._mpo.copy()
+
+    def restore_networks(
+            self,
+            networks: Tuple[na.NodeArray, na.NodeArray]) -> None:
+        """Reset the MPS and MPO to copies made with `copy_networks()`. """
+        self._mps, self._mpo = networks
+
     def compute_system_step(self, current_step, prop_1, prop_2) -> ndarray:
         """
         Takes a step in the TEMPO tensor network computation.
@@ -760,15 +770,25 @@ class MeanFieldTempoBackend():
             propagators(current_step, current_field, current_field_derivative) \
                 for propagators, state in \
                     zip(self._propagators_list, current_state_list)]
-        # Use tempo tensor network to compute each system state
-        next_state_list = [
-            backend.compute_system_step(next_step, *prop_tuple) \
-                for backend, prop_tuple in \
-                    zip(self._backend_list, prop_tuple_list)]
-        # Use field evolution function to compute next field
-        next_field = self._compute_field(current_step,
-                                         current_state_list, current_field,
-                                         next_state_list)
+        # Keep the tensor networks of the current step: the field evolution
+        # function is evaluated after they have been advanced, and if it fails
+        # the step must be undone such that it can be repeated.
+        networks_list = [backend.copy_networks() \
+                for backend in self._backend_list]
+        try:
+            # Use tempo tensor network to compute each system state
+            next_state_list = [
+                backend.compute_system_step(next_step, *prop_tuple) \
+                    for backend, prop_tuple in \
+                        zip(self._backend_list, prop_tuple_list)]
+            # Use field evolution function to compute next field
+            next_field = self._compute_field(current_step,
+                                             current_state_list, current_field,
+                                             next_state_list)
+        except BaseException:
+            for backend, networks in zip(self._backend_list, networks_list):
+                backend.restore_networks(networks)
+            raise
         self._state_list = next_state_list
         self._field = next_field
         self._step = next_step
